@@ -88,6 +88,7 @@ type FuncVC struct {
 	callOrd      map[string]int
 	unsup        []string
 	noTerm       []string // loops with neither a measure nor an error-exit obligation
+	defKeys      map[string]bool // heap keys that carry a definedness ghost (leaves of the outs parameters)
 	nonnil       map[ssa.Value]bool
 	writes       []writeRec
 	retOrd       int
@@ -104,6 +105,7 @@ type FuncVC struct {
 	allocs       map[string]*Val            // address-taken locals by source name
 	defBlock     map[string]*ssa.BasicBlock // block in which a named local was (last) bound
 	curBlock     *ssa.BasicBlock
+	curPos       token.Pos
 	localNames   map[string]bool
 	dcalls       []*delegCall
 	sites        []string
@@ -332,6 +334,148 @@ func (vc *FuncVC) logWrite(key string, idx Term, s Sort) {
 func (vc *FuncVC) storeLeaf(st *State, key string, idx Term, v Term) {
 	vc.logWrite(key, idx, v.Sort)
 	vc.store(st, key, idx, v)
+	vc.markDef(st, key, idx, TTrue)
+}
+
+// ---------------------------------------------------------------- class D: destinations are defined before they are read
+//
+// For a function with an `outs d` clause the previous contents of *d are poison: every leaf of *d
+// carries a ghost bit def.<key>[addr], false at entry unless d is also one of the operands of the
+// same type, set by every store and by every callee that lists the location in its own outs/assigns.
+// Each load of a leaf by the code (not by the specification) and each pointer handed to a callee in
+// an operand position must find the bit set; at each return all leaves of *d must be set.
+// Loop heads keep the bits they had on entry (bits only ever go from false to true, so this is sound).
+
+func (vc *FuncVC) initDef() {
+	if vc.L.layer1 || (len(vc.fc.Outs) == 0 && len(vc.fc.Reads) == 0) {
+		return
+	}
+	vc.defKeys = map[string]bool{}
+	type cell struct{ addr, flag Term }
+	byKey := map[string][]cell{}
+	var korder []string
+	e0 := vc.env(vc.entry, nil)
+	readSet, restricted := readsOf(vc.Gen, e0, vc.fc)
+	// leaves of the operands that may be read: a destination leaf at the same address is not poison
+	type opLeaf struct {
+		key  string
+		addr Term
+	}
+	var ops []opLeaf
+	for _, q := range vc.fn.Params {
+		qp, isPtr := q.Type().Underlying().(*types.Pointer)
+		if !isPtr || isOut(vc.fc, q.Name()) {
+			continue
+		}
+		if _, sc := scalarSort(qp.Elem()); sc {
+			continue
+		}
+		qa := vc.params[q.Name()].T
+		for _, lf := range vc.L.leaves(qp.Elem(), 0, "") {
+			a := Add(qa, IntLit(lf.Off))
+			if restricted[q.Name()] && !readSet[lf.Key+"@"+a.S] {
+				continue
+			}
+			ops = append(ops, opLeaf{lf.Key, a})
+		}
+	}
+	poison := func(name string, pv SVal, only func(key string, addr Term) bool) {
+		for _, lf := range vc.L.leaves(pv.Ty.Elem, 0, "") {
+			a := Add(pv.T, IntLit(lf.Off))
+			if only != nil && !only(lf.Key, a) {
+				continue
+			}
+			flag := Eq(pv.T, IntLit(0)) // a nil destination poisons nothing
+			for _, o := range ops {
+				if o.key == lf.Key && o.addr.S != a.S {
+					flag = Or(flag, Eq(a, o.addr))
+				}
+			}
+			if _, seen := byKey[lf.Key]; !seen {
+				korder = append(korder, lf.Key)
+			}
+			byKey[lf.Key] = append(byKey[lf.Key], cell{a, flag})
+		}
+	}
+	for _, name := range vc.fc.Outs {
+		pv, ok := vc.params[name]
+		if !ok || pv.Ty.K != KRef || pv.Ty.Elem == nil {
+			panic("outs: " + name + " is not a pointer parameter")
+		}
+		poison(name, pv, nil)
+	}
+	for name := range restricted {
+		pv := vc.params[name]
+		poison(name, pv, func(key string, addr Term) bool { return !readSet[key+"@"+addr.S] })
+	}
+	sort.Strings(korder)
+	for _, key := range korder {
+		vc.defKeys[key] = true
+		expr := "((as const (Array Int Bool)) true)"
+		for _, c := range byKey[key] {
+			expr = "(store " + expr + " " + c.addr.S + " " + c.flag.S + ")"
+		}
+		d0 := vc.freshArray("D0_"+key, SBool)
+		vc.assume(Term{"(= " + d0.S + " " + expr + ")", SBool})
+		vc.keys["def."+key] = SBool
+		vc.entry.heap["def."+key] = d0
+	}
+}
+
+// readsOf resolves the reads clauses of a contract in environment e: the set of (key@address) leaves that
+// may be read, and the parameters that carry such a restriction.
+func readsOf(g *Gen, e *Env, fc *FuncContract) (map[string]bool, map[string]bool) {
+	set := map[string]bool{}
+	restricted := map[string]bool{}
+	for _, rx := range fc.Reads {
+		restricted[rootIdent(rx)] = true
+		if id, ok := rx.(*EIdent); ok && id != nil {
+			continue // "reads p" alone: nothing of *p is read
+		}
+		for _, lf := range g.lvalue(e, rx) {
+			set[lf.Key+"@"+lf.Idx.S] = true
+		}
+	}
+	return set, restricted
+}
+
+func isOut(fc *FuncContract, name string) bool {
+	for _, o := range fc.Outs {
+		if o == name {
+			return true
+		}
+	}
+	return false
+}
+
+func (vc *FuncVC) markDef(st *State, key string, idx Term, v Term) {
+	if vc.defKeys == nil || !vc.defKeys[key] {
+		return
+	}
+	vc.store(st, "def."+key, idx, v)
+}
+
+func (vc *FuncVC) isDef(st *State, key string, idx Term) Term {
+	return vc.load(st, "def."+key, idx, SBool)
+}
+
+// readCheck: the code reads leaf key[idx].
+func (vc *FuncVC) readCheck(st *State, key string, idx Term) {
+	if vc.defKeys == nil || !vc.defKeys[key] || vc.discovery > 0 {
+		return
+	}
+	vc.oblige("D", fmt.Sprintf("defined/%s#%d", key, vc.ord("defined")), vc.reach[vc.curBlock], vc.isDef(st, key, idx), vc.propTags("C05", "C06"), vc.curPos, "the previous contents of a destination are not read: "+key)
+}
+
+// allDef: every leaf of the object of type t at address a is defined.
+func (vc *FuncVC) allDef(st *State, a Term, t types.Type) Term {
+	var gs []Term
+	for _, lf := range vc.L.leaves(t, 0, "") {
+		if vc.defKeys[lf.Key] {
+			gs = append(gs, vc.isDef(st, lf.Key, Add(a, IntLit(lf.Off))))
+		}
+	}
+	return And(gs...)
 }
 
 func (vc *FuncVC) loadLoc(st *State, l *Loc) *Val {
@@ -355,6 +499,7 @@ func (vc *FuncVC) loadLoc(st *State, l *Loc) *Val {
 		return &Val{T: t, GoType: l.Type}
 	}
 	t := vc.load(st, l.Key, l.Idx, l.Sort)
+	vc.readCheck(st, l.Key, l.Idx)
 	if l.Type != nil {
 		if _, _, isInt := intRange(l.Type); isInt && !isCondition(l.Type) {
 			t = vc.define("ld", t)
@@ -383,6 +528,7 @@ func (vc *FuncVC) loadAgg(st *State, a Term, t types.Type) *Val {
 	v := &Val{Kind: vAgg, GoType: t}
 	for _, lf := range vc.L.leaves(t, 0, "") {
 		v.Flat = append(v.Flat, vc.load(st, lf.Key, Add(a, IntLit(lf.Off)), lf.Sort))
+		vc.readCheck(st, lf.Key, Add(a, IntLit(lf.Off)))
 	}
 	return v
 }
@@ -607,6 +753,7 @@ func (vc *FuncVC) Generate() (err error) {
 		vc.assume(e0.boolean(r.E))
 	}
 	vc.applyHints(e0)
+	vc.initDef()
 	// vacuity guard: the preconditions (and everything assumed at entry) are satisfiable
 	vc.oblige("V", "vacuity/requires-sat", TTrue, TFalse, vc.propTags("C04"), vc.fn.Pos(), "requires satisfiable").ExpectSat = true
 	rpo := vc.analyseCFG()
